@@ -1,6 +1,6 @@
 #!/bin/bash
 # verify_seeded.sh <seed-id> ... : re-confirm seeded changes against the CURRENT /repo HEAD in a scratch worktree (/tmp/wt-verify):
-# demo passes on the unchanged tree, patch applies, suite still passes, demo fails with the patch.  Appends to /tmp/verify_seeded.log
+# demo passes on the unchanged tree, patch applies, suite still passes, demo fails with the patch.  Appends to /verif/seeded/verify_head.log
 WT=/tmp/wt-verify
 if [ ! -d $WT ]; then git -C /repo worktree add -q $WT HEAD || exit 2; fi
 cd $WT && git checkout -q --detach $(git -C /repo rev-parse HEAD) 2>/dev/null; git checkout -q -- .
@@ -13,8 +13,8 @@ for ID in "$@"; do
   git checkout -q -- .
   cmake --build _build -j8 >/dev/null 2>&1
   bash "$S/run.sh" "$WT/_build" >/tmp/vs_demo0.out 2>&1; D0=$?
-  if ! git apply "$S/patch.diff" 2>/tmp/vs_apply.err; then echo "$ID PATCH-DOES-NOT-APPLY" | tee -a /tmp/verify_seeded.log; continue; fi
-  cmake --build _build -j8 >/tmp/vs_build.out 2>&1 || { echo "$ID BUILD-FAILED" | tee -a /tmp/verify_seeded.log; git checkout -q -- .; continue; }
+  if ! git apply "$S/patch.diff" 2>/tmp/vs_apply.err; then echo "$ID PATCH-DOES-NOT-APPLY" | tee -a /verif/seeded/verify_head.log; continue; fi
+  cmake --build _build -j8 >/tmp/vs_build.out 2>&1 || { echo "$ID BUILD-FAILED" | tee -a /verif/seeded/verify_head.log; git checkout -q -- .; continue; }
   ctest --test-dir _build -j8 --timeout 900 >/dev/null 2>&1
   L=_build/Testing/Temporary/LastTest.log
   P=$(grep -E "^\[  PASSED  \]" $L | grep -o "[0-9]*" | head -1)
@@ -22,6 +22,6 @@ for ID in "$@"; do
   bash "$S/run.sh" "$WT/_build" >/tmp/vs_demo1.out 2>&1; D1=$?
   git checkout -q -- .
   V=INVALID; if [ "$D0" = "0" ] && [ "$D1" != "0" ] && [ "$NL" = "0" ] && [ "${P:-0}" -ge 1100 ]; then V=VALID; fi
-  echo "$ID demo_unchanged=$D0 suite_passed=$P nonlive_fail=$NL demo_changed=$D1 => $V" | tee -a /tmp/verify_seeded.log
+  echo "$ID demo_unchanged=$D0 suite_passed=$P nonlive_fail=$NL demo_changed=$D1 => $V" | tee -a /verif/seeded/verify_head.log
 done
 cmake --build _build -j8 >/dev/null 2>&1
